@@ -21,7 +21,9 @@ type HookRule struct {
 	// goroutine is then held for HoldU microseconds so the action lands inside the window.
 	Trigger func() `json:"-"`
 	HoldU   int    `json:"hold_us,omitempty"`
-	fired   bool
+	// HoldUntil, if set, ends the hold early (HoldU is then the upper bound of the hold).
+	HoldUntil <-chan struct{} `json:"-"`
+	fired     bool
 }
 
 type hookEvent struct {
@@ -65,8 +67,9 @@ func (h *HookCtl) event(point string, server bool, conn uintptr) {
 	if len(h.ring) < 4000 {
 		h.ring = append(h.ring, hookEvent{At: time.Since(h.start), Point: point, Server: server, Conn: conn})
 	}
-	var delay time.Duration
+	var delay, hold time.Duration
 	var trig func()
+	var until <-chan struct{}
 	for _, r := range h.rules {
 		if r.Point != point || (r.Side != "" && r.Side != side) {
 			continue
@@ -78,7 +81,12 @@ func (h *HookCtl) event(point string, server bool, conn uintptr) {
 		delay += time.Duration(r.DelayU) * time.Microsecond
 		if r.Trigger != nil {
 			trig = r.Trigger
-			delay += time.Duration(r.HoldU) * time.Microsecond
+			if r.HoldUntil != nil {
+				until = r.HoldUntil
+				hold += time.Duration(r.HoldU) * time.Microsecond
+			} else {
+				delay += time.Duration(r.HoldU) * time.Microsecond
+			}
 		}
 	}
 	h.mu.Unlock()
@@ -87,6 +95,12 @@ func (h *HookCtl) event(point string, server bool, conn uintptr) {
 	}
 	if delay > 0 {
 		time.Sleep(delay)
+	}
+	if until != nil {
+		select {
+		case <-until:
+		case <-time.After(hold):
+		}
 	}
 }
 
